@@ -100,6 +100,7 @@ def run_shuffle(job: dict) -> dict:
 
     def records_here(arg) -> list[list[dict]]:
         calls, only = arg
+        oplogs: list = []
         if only is None:
             prog = {"inv": job["inv"], "calls": calls}
         else:
@@ -109,6 +110,7 @@ def run_shuffle(job: dict) -> dict:
         if tr["status"] != "ok":
             raise RuntimeError("shuffle program did not finish")
         per = [[], []]
+        oplogs.extend(tr.get("oplog", []))
         cur = None
         for ev in tr["ev"]:
             if ev["e"] == "CALL":
@@ -128,13 +130,14 @@ def run_shuffle(job: dict) -> dict:
                     cur["val"] = cur["val_end"] = f"{ev.get('exc')}:{ev.get('msg')}"
                 per[cur["o"]].append(cur)
                 cur = None
-        return per
+        return per + [oplogs]
 
     # each sequence starts with the object's own read_device_info: the shuffles also interleave those
     di = {"api": "read_device_info"}
     s = [[dict(c, o=0) for c in [di] + job["s1"]], [dict(c, o=1) for c in [di] + job["s2"]]]
     solo = [records(s[0], 0)[0], records(s[1], 1)[0]]
     out = []
+    simlogs = []
     for sh in job["shuffles"]:
         idx = [0, 0]
         calls = []
@@ -142,10 +145,12 @@ def run_shuffle(job: dict) -> dict:
             calls.append(s[o][idx[o]])
             idx[o] += 1
         tau = records(calls)
+        if len(simlogs) < 2:
+            simlogs.extend(tau[2])
         for o in (0, 1):
             out.append({"o": o, "shuffle": list(sh), "solo": solo[o], "tau": tau[o],
                         "fr": "tcp" if job["inv"][o].get("port", 8899) == 502 else "rtu"})
-    return {"job": {k: job[k] for k in ("pair", "s1", "s2", "priors", "inv")}, "cases": out}
+    return {"job": {k: job[k] for k in ("pair", "s1", "s2", "priors", "inv")}, "cases": out, "simlogs": simlogs}
 
 
 def judge_results(run: Run, res: list[dict]) -> tuple[list, list, set]:
@@ -240,6 +245,8 @@ def check(prop: str, tier: str, seed: int) -> int:
                                      "inv": [obj_spec(a, rnd, pa), obj_spec(b, rnd, pb)]})
     res = engine.parallel_map("harness.checks_shuffle", "run_shuffle", jobs, procs=16, chunk=2)
     cases, src, inter = judge_results(run, res)
+    from . import checks_sim
+    checks_sim.validate_logs(run, [lg for r in res for lg in r.get("simlogs", [])], sample=120 if quick else 2000, seed=seed)
     run.cov["distinct_nontrivial"] = len(inter)
     run.cov["traces_validated_against_impl"] = len(cases)
     if cases:
